@@ -273,7 +273,7 @@ func init() {
 		c.Rep.Level = "model_checking"
 		c.Rep.Assumption("sync.Pool is modelled as a LIFO store whose Get may find the pool emptied (environment choice pool-miss); per-P caches and victim caches of the real sync.Pool are not modelled (they only change WHICH pooled buffer is returned, never hand one out twice)")
 		c.Rep.Assumption("scheduling points: Pool.Get, Pool.Put and one point while a user holds a buffer; bytes.Buffer itself is not instrumented, so unsynchronised accesses to one buffer are C33's subject, not C41's")
-		c.Rep.Set("programs", map[string]int{"2x2": len(c41Programs("2x2")), "3x1": len(c41Programs("3x1")), "3x2": len(c41Programs("3x2"))})
+		c.Rep.Set("program_families", map[string]int{"2x2": len(c41Programs("2x2")), "3x1": len(c41Programs("3x1")), "3x2": len(c41Programs("3x2"))})
 		unb := []explore.Bounds{{Unbounded: true}}
 		a := newDfsAgg(c)
 		if c.Quick() {
